@@ -327,6 +327,12 @@ type runState struct {
 	cancelAt  int   // call cancelFn before the k-th call
 	cancelFn  context.CancelFunc
 	delaySeed uint64 // != 0: pseudo-random delays per call
+	// slowAfterCancel: once cancelFn has been called, storage calls behave like a slow database that honours its context: they
+	// return the context's error as soon as the context they were given is done, and otherwise only after slowFor (once)
+	slowAfterCancel bool
+	slowFor         time.Duration
+	cancelled       bool
+	slowSpent       bool
 	// overlap family: pre runs before the k-th call is let through; reads hold rw
 	// shared while they run and are reported to obs before they release it
 	pre func(k int)
@@ -389,12 +395,27 @@ func (w *storeWrap) enter(ctx context.Context, kind string) (*runState, int, err
 	doCancel := rs.cancelAt != 0 && k == rs.cancelAt
 	seed := rs.delaySeed
 	pre := rs.pre
+	if doCancel {
+		rs.cancelled = true
+	}
+	slow := rs.slowAfterCancel && rs.cancelled && !rs.slowSpent
+	slowFor := rs.slowFor
 	rs.mu.Unlock()
 	if pre != nil {
 		pre(k)
 	}
 	if doCancel && cf != nil {
 		cf()
+	}
+	if slow && err == nil {
+		select {
+		case <-ctx.Done():
+			err = ctx.Err()
+		case <-time.After(slowFor):
+			rs.mu.Lock()
+			rs.slowSpent = true
+			rs.mu.Unlock()
+		}
 	}
 	if seed != 0 {
 		h := fnv.New64a()
